@@ -46,7 +46,9 @@ Blocks == <<
   B("with", "with c as d:", ""), B("try", "try:", "finally:"), B("ifelse", "if a:", "else:"), B("tryexcept", "try:", "except E:"),               \* 6-9
   B("asyncdef", "async def g():", ""), B("elifchain", "if a:", "elif b:"), B("withmacro", "with! m:", ""), B("matchcase", "match x:", "")        \* 10-13
 >>
-Breakers == <<"valid", "unclosed", "wrong_closer", "doubled", "missing_operand", "trailing">>
+\* "later": the instance itself is valid, a LATER statement is rejected (the diagnostic pass then runs over the whole text)
+Breakers == <<"valid", "unclosed", "wrong_closer", "doubled", "missing_operand", "trailing", "later">>
+Later(br) == IF br = "later" THEN "z = 1 1\n" ELSE ""
 
 RECURSIVE Rep(_, _)
 Rep(s, n) == IF n = 0 THEN "" ELSE s \o Rep(s, n - 1)
@@ -68,12 +70,18 @@ NestText(a, b, n, br) ==
        \o (IF br = "unclosed" THEN NestPost(b, a, n - 1)                       \* outermost closer dropped
            ELSE IF br = "wrong_closer" THEN NestPost(b, a, n - 1) \o "]]"
            ELSE post)
-       \o (IF br = "trailing" THEN " 1" ELSE "") \o "\n"
+       \o (IF br = "trailing" THEN " 1" ELSE "") \o "\n" \o Later(br)
+\* groups of a subprocess command nested in each other ("(a (a 1))" inside "![echo ...]"): plain text for the parser, but
+\* the brackets have to match; "unclosed" = no group is closed before the command's own closer
+SubGroups == << W("cmdgroup", "(a ", ")"), W("cmdgroupsq", "[a ", "]"), W("cmdgroupbr", "{a ", "}") >>
+SubText(g, n, br) ==
+  "![echo " \o NestPre(g, g, n) \o Core(br) \o (IF br = "unclosed" THEN " " ELSE NestPost(g, g, n))
+    \o (IF br = "wrong_closer" THEN ")" ELSE "]") \o (IF br = "trailing" THEN " 1" ELSE "") \o "\n" \o Later(br)
 ChainText(c, n, br) ==
   c.head \o Rep(c.unit, n)
     \o (IF br = "doubled" THEN c.unit \o c.unit ELSE "")
     \o (IF br = "unclosed" /\ c.tail # "" THEN "(\n" ELSE IF br = "missing_operand" THEN "+ \n" ELSE IF br = "wrong_closer" THEN "]\n" ELSE c.tail)
-    \o (IF br = "trailing" THEN "1 1\n" ELSE "")
+    \o (IF br = "trailing" THEN "1 1\n" ELSE "") \o Later(br)
 
 \* n nested blocks; the innermost body is the core statement; blocks with a closing clause get "<post>\n<indent>pass"
 RECURSIVE BlockOpen(_, _, _), BlockClose(_, _, _)
@@ -82,11 +90,11 @@ BlockOpen(b, i, n) == IF i = n THEN "" ELSE Ind(i) \o b.head \o "\n" \o BlockOpe
 BlockClose(b, i, n) == IF i = n \/ b.post = "" THEN "" ELSE BlockClose(b, i + 1, n) \o Ind(i) \o b.post \o "\n" \o Ind(i + 1) \o "pass\n"
 BlockCore(br) == CASE br = "doubled" -> "1 1" [] br = "missing_operand" -> "1 +" [] br = "unclosed" -> "(1" [] br = "wrong_closer" -> "1]" [] OTHER -> "z = 1"
 BlockText(b, n, br) ==
-  BlockOpen(b, 0, n) \o Ind(n) \o BlockCore(br) \o "\n" \o BlockClose(b, 0, n) \o (IF br = "trailing" THEN "1 1\n" ELSE "")
+  BlockOpen(b, 0, n) \o Ind(n) \o BlockCore(br) \o "\n" \o BlockClose(b, 0, n) \o (IF br = "trailing" THEN "1 1\n" ELSE "") \o Later(br)
 \* match statements nest through their case bodies: two lines per level
 RECURSIVE MatchOpen(_, _)
 MatchOpen(i, n) == IF i = n THEN "" ELSE Ind(2 * i) \o "match x:\n" \o Ind(2 * i + 1) \o "case 1:\n" \o MatchOpen(i + 1, n)
-MatchText(n, br) == MatchOpen(0, n) \o Ind(2 * n) \o BlockCore(br) \o "\n" \o (IF br = "trailing" THEN "1 1\n" ELSE "")
+MatchText(n, br) == MatchOpen(0, n) \o Ind(2 * n) \o BlockCore(br) \o "\n" \o (IF br = "trailing" THEN "1 1\n" ELSE "") \o Later(br)
 FamText(b, n, br) == IF b.id = "matchcase" THEN MatchText(n, br) ELSE BlockText(b, n, br)
 RECURSIVE RepFast(_, _)
 RepFast(s, n) == IF n = 0 THEN "" ELSE IF n % 2 = 0 THEN LET h == RepFast(s, n \div 2) IN h \o h ELSE s \o RepFast(s, n - 1)
@@ -101,7 +109,7 @@ Next == /\ pick.k = "none"
                 \/ /\ a \in PatternWraps /\ b \in PatternWraps
                    /\ pick' = [k |-> "nest", fam |-> "pattern:" \o Wraps[a].id \o "/" \o Wraps[b].id, br |-> Breakers[br], n |-> n,
                                src |-> Hosts[2][1] \o NestPre(Wraps[a], Wraps[b], n) \o Core(Breakers[br]) \o NestPost(Wraps[a], Wraps[b], n)
-                                         \o (IF Breakers[br] = "trailing" THEN " 1" ELSE "") \o Hosts[2][2] \o "\n"]
+                                         \o (IF Breakers[br] = "trailing" THEN " 1" ELSE "") \o Hosts[2][2] \o "\n" \o Later(Breakers[br])]
            \/ \E h \in 1..Len(TargetHosts) : \E a \in TargetWraps : \E b \in TargetWraps : \E br \in (BreakUse \cap {1, 6}) : \E n \in Sizes :
                 /\ (Pairs \/ a = b) /\ PatternWraps # {}
                 /\ pick' = [k |-> "nest", fam |-> "target:" \o TargetHosts[h][1] \o ":" \o Wraps[a].id \o "/" \o Wraps[b].id, br |-> Breakers[br], n |-> n,
@@ -114,6 +122,10 @@ Next == /\ pick.k = "none"
            \/ \E a \in WrapUse \cap {1, 2, 4, 6, 8, 11} : \E n \in Sizes : \E p \in Prefixes \ {0} :
                 pick' = [k |-> "nest", fam |-> "after-flat-prefix:" \o Wraps[a].id, br |-> "valid", n |-> n,
                          src |-> Flat(p) \o NestText(Wraps[a], Wraps[a], n, "valid")]
+           \/ \E g \in 1..Len(SubGroups) : \E br \in BreakUse : \E n \in Sizes :
+                /\ 11 \in WrapUse
+                /\ pick' = [k |-> "nest", fam |-> "sub:" \o SubGroups[g].id \o "/" \o SubGroups[g].id, br |-> Breakers[br], n |-> n,
+                            src |-> SubText(SubGroups[g], n, Breakers[br])]
            \/ \E c \in ChainUse : \E br \in BreakUse : \E n \in Sizes :
                 pick' = [k |-> "chain", fam |-> Chains[c].id, br |-> Breakers[br], n |-> n, src |-> ChainText(Chains[c], n * ChainScale, Breakers[br])]
 Export == pick.k # "none" => CSVWrite("%1$s", <<ToJson(pick)>>, IOEnv.OUT)
